@@ -405,6 +405,25 @@ var scenarios = []*scenario{
     (channel-pop d)
     (list r1 r2)))`,
 		check: all(expectVal("(first second)")), canon: rawVal},
+	{name: "d8-closure-frame-shared-by-a-routine-started-in-the-closure", group: "d", yield: true, quick: 2, thorough: 3,
+		// the frame a closure closes over is not an ancestor of the scope it is called from; the closure starts a routine
+		// that writes one variable of that frame while the caller writes another one; the calling scope was already
+		// shared with an unrelated earlier routine. Every frame the new routine can reach must be protected.
+		src: `(progn
+  (defun @F (d)
+    (let ((a 0) (b 0))
+      (lambda (k)
+        (cond ((eq k 'get) (list a b))
+              (t (run (progn (setq a (+ k 1)) (channel-push d t)))
+                 (setq b (+ k 2)))))))
+  (let ((d (make-channel 2)) (d0 (make-channel 1)))
+    (let ((f (@F d)))
+      (run (channel-push d0 t))
+      (channel-pop d0)
+      (funcall f 10)
+      (channel-pop d)
+      (funcall f 'get))))`,
+		check: all(expectVal("(11 12)")), canon: rawVal},
 	// ---- (e) negative control: an unsynchronised read-modify-write MUST be caught
 	{name: "e1-unsynchronised-counter", group: "e", yield: true, negative: true, quick: 2, thorough: 2,
 		src: `(let ((n 0) (d (make-channel 2)))
